@@ -206,7 +206,12 @@ def run_case(case: dict) -> dict:
                     size_after = target.stat().st_size
                     size_before = max(0, size_after - written)
                     is_meta = target.name.endswith(".json") or "update_" in target.name
-                    cuts = range(1, written) if (case["all_torn"] and is_meta and written < 3000) else sorted({1, written // 2, written - 1})
+                    if case["all_torn"] and is_meta:
+                        # thorough: every prefix of small metadata writes, a dense sample of larger ones
+                        cuts = range(1, written) if written <= 160 else sorted(
+                            set(range(1, 40)) | set(range(written - 40, written)) | set(range(40, written - 40, max(1, written // 120))))
+                    else:
+                        cuts = sorted({1, written // 2, written - 1})
                     original = target.read_bytes()
                     for cut in cuts:
                         if not 0 < cut < written:
